@@ -44,7 +44,7 @@ def char_scenarios(rng, quick):
     # default budget, all attempts fail
     out.append(sc(dict(len=4, allowChars=o("abcdefgh"), requireSets=[o("d"), o("e")]), paths=4, tag="default-budget"))
     out.append(sc(dict(len=8, allow=15, require=12, exclude=16), paths=4, tag="default-budget"))
-    n = 60 if quick else 1200
+    n = 60 if quick else 6000
     for _ in range(n):
         c = dict(len=rng.choice([-1, 0, 1, 1, 2, 3, 5, 8, 20]), allow=rng.randrange(32), require=rng.choice([0, 0, 4, 8, 12, rng.randrange(32)]),
                  exclude=rng.choice([0, 16, rng.randrange(32)]), allowChars=o(rng.choice(["", "", "ab", "é0"])),
